@@ -92,9 +92,23 @@ pub open spec fn name_clash(ps: Seq<FunctionConstant>, n: int) -> bool {
     exists|i: int, j: int| 0 <= i < j < n && #[trigger] ps[i].name@ == #[trigger] ps[j].name@
 }
 
+/// a control-language specification "consists of annotated formulas of two types: assumptions and specs" (manual, specification.md)
 pub open spec fn roles_supported(fs: Seq<AnnotatedFormula>, n: int) -> bool {
-    forall|i: int| 0 <= i < n ==> ((#[trigger] fs[i]).role == Role::Assumption || fs[i].role == Role::Spec || fs[i].role == Role::Definition)
+    forall|i: int| 0 <= i < n ==> ((#[trigger] fs[i]).role == Role::Assumption || fs[i].role == Role::Spec)
 }
+
+/// the entry condition of ValidatedExternalEquivalenceTask::decompose (unit `ext`): its `unreachable!()` arms for
+/// Lemma | Definition | InductiveLemma must not be reachable
+pub open spec fn roles_ok(fs: Seq<AnnotatedFormula>) -> bool {
+    forall|i: int| 0 <= i < fs.len() ==> ((#[trigger] fs[i]).role == Role::Assumption || fs[i].role == Role::Spec)
+}
+
+/// C16/C11 call-site obligation: what ensure_specification_roles_are_supported accepts must satisfy the entry condition of the
+/// routing step that consumes the specification's formulas (otherwise an accepted specification reaches unreachable!())
+pub proof fn callsite_roles_checked_before_routing(fs: Seq<AnnotatedFormula>)
+    requires roles_supported(fs, fs.len() as int),
+    ensures roles_ok(fs),
+{}
 
 impl ExternalEquivalenceTask {
 //@fn src/verifying/task/external_equivalence.rs :: impl ExternalEquivalenceTask :: fn ensure_program_tightness
